@@ -1,4 +1,7 @@
 ; Prelude for govc: spec vocabulary shared by the contracts of buchgr/bazel-remote.
+; Intended model: GSeq = finite duplicate-free sequences of integers; pushFront of an
+; element already present moves it to the front; seqremove / mtf of a non-member are
+; the identity. All axioms below hold in that model (argued in DESIGN.md).
 ; Every axiom carries "@needs": it is only emitted into queries that mention all
 ; of these symbols. Axioms are TRUSTED (listed in the evidence) and are
 ; sanity-tested for consistency by `govc selftest`.
@@ -11,104 +14,116 @@
 (define-fun r4kc ((n Int)) Int (ite (< n 0) 0 (* 4096 (div (+ n 4095) 4096))))
 
 ; --- abstract recency sequence of entry references (front = most recent) ------
-(declare-fun seq.member (GSeq Int) Bool)
-(declare-fun seq.len (GSeq) Int)
-(declare-fun seq.pushFront (GSeq Int) GSeq)
-(declare-fun seq.remove (GSeq Int) GSeq)
-(declare-fun seq.mtf (GSeq Int) GSeq)
-(declare-fun seq.back (GSeq) Int)
-(declare-fun seq.front (GSeq) Int)
-(declare-fun seq.dropped (GSeq GSeq) Bool)
+(declare-fun member (GSeq Int) Bool)
+(declare-fun seqlen (GSeq) Int)
+(declare-fun pushFront (GSeq Int) GSeq)
+(declare-fun seqremove (GSeq Int) GSeq)
+(declare-fun mtf (GSeq Int) GSeq)
+(declare-fun seqback (GSeq) Int)
+(declare-fun seqfront (GSeq) Int)
+(declare-fun dropped (GSeq GSeq) Bool)
 ; sum over members x of r4kc(A[itemOf(x)])
-(declare-fun seq.sum4k (GSeq (Array Int Int)) Int)
+(declare-fun sum4k (GSeq (Array Int Int)) Int)
 ; the lruItem embedded in an entry (same symbol the engine generates for &e.value)
-(declare-fun sub.github.com.buchgr.bazel_remote.v2.cache.disk.entry.value (Int) Int)
-(declare-fun subinv.github.com.buchgr.bazel_remote.v2.cache.disk.entry.value (Int) Int)
+(declare-fun sub.cache.disk.entry.value (Int) Int)
+(declare-fun subinv.cache.disk.entry.value (Int) Int)
+(define-fun itemOf ((x Int)) Int (sub.cache.disk.entry.value x))
+; eviction queue (ghost bag of entries handed to the remover)
+(declare-fun qadd (GSeq Int) GSeq)
+
+; boxing of strings into interface payloads, and interface-typed map keys
+(declare-fun box.str (GStr) Int)
+(declare-fun unbox.str (Int) GStr)
+(declare-fun ikey (Int Int) Int)
+(declare-fun ikey.tag (Int) Int)
+(declare-fun ikey.val (Int) Int)
+; @axiom box-str-inj
+; @needs box.str
+(assert (forall ((s GStr)) (! (= (unbox.str (box.str s)) s) :pattern ((box.str s)))))
+; @axiom ikey-inj
+; @needs ikey
+(assert (forall ((t Int) (v Int)) (! (and (= (ikey.tag (ikey t v)) t) (= (ikey.val (ikey t v)) v)) :pattern ((ikey t v)))))
 
 ; @axiom seq-len-nonneg
-; @needs seq.len
-(assert (forall ((s GSeq)) (! (>= (seq.len s) 0) :pattern ((seq.len s)))))
+; @needs seqlen
+(assert (forall ((s GSeq)) (! (>= (seqlen s) 0) :pattern ((seqlen s)))))
 ; @axiom seq-member-len
-; @needs seq.member seq.len
-(assert (forall ((s GSeq) (x Int)) (! (=> (seq.member s x) (> (seq.len s) 0)) :pattern ((seq.member s x)))))
+; @needs member seqlen
+(assert (forall ((s GSeq) (x Int)) (! (=> (member s x) (> (seqlen s) 0)) :pattern ((member s x)))))
 ; @axiom seq-back-member
-; @needs seq.back
-(assert (forall ((s GSeq)) (! (=> (> (seq.len s) 0) (seq.member s (seq.back s))) :pattern ((seq.back s)))))
+; @needs seqback
+(assert (forall ((s GSeq)) (! (=> (> (seqlen s) 0) (member s (seqback s))) :pattern ((seqback s)))))
 ; @axiom seq-front-member
-; @needs seq.front
-(assert (forall ((s GSeq)) (! (=> (> (seq.len s) 0) (seq.member s (seq.front s))) :pattern ((seq.front s)))))
-; @axiom seq-member-nonnil
-; @needs seq.member
-(assert (forall ((s GSeq) (x Int)) (! (=> (seq.member s x) (not (= x 0))) :pattern ((seq.member s x)))))
-
+; @needs seqfront
+(assert (forall ((s GSeq)) (! (=> (> (seqlen s) 0) (member s (seqfront s))) :pattern ((seqfront s)))))
 ; @axiom seq-push-member
-; @needs seq.pushFront seq.member
-(assert (forall ((s GSeq) (x Int) (y Int)) (! (= (seq.member (seq.pushFront s x) y) (or (= y x) (seq.member s y))) :pattern ((seq.member (seq.pushFront s x) y)))))
+; @needs pushFront member
+(assert (forall ((s GSeq) (x Int) (y Int)) (! (= (member (pushFront s x) y) (or (= y x) (member s y))) :pattern ((member (pushFront s x) y)))))
 ; @axiom seq-push-len
-; @needs seq.pushFront seq.len
-(assert (forall ((s GSeq) (x Int)) (! (=> (not (seq.member s x)) (= (seq.len (seq.pushFront s x)) (+ (seq.len s) 1))) :pattern ((seq.pushFront s x)))))
+; @needs pushFront seqlen
+(assert (forall ((s GSeq) (x Int)) (! (=> (not (member s x)) (= (seqlen (pushFront s x)) (+ (seqlen s) 1))) :pattern ((pushFront s x)))))
 ; @axiom seq-push-front
-; @needs seq.pushFront seq.front
-(assert (forall ((s GSeq) (x Int)) (! (= (seq.front (seq.pushFront s x)) x) :pattern ((seq.pushFront s x)))))
+; @needs pushFront seqfront
+(assert (forall ((s GSeq) (x Int)) (! (= (seqfront (pushFront s x)) x) :pattern ((pushFront s x)))))
 ; @axiom seq-push-back
-; @needs seq.pushFront seq.back
-(assert (forall ((s GSeq) (x Int)) (! (=> (> (seq.len s) 0) (= (seq.back (seq.pushFront s x)) (seq.back s))) :pattern ((seq.pushFront s x)))))
+; @needs pushFront seqback
+(assert (forall ((s GSeq) (x Int)) (! (=> (and (> (seqlen s) 0) (not (member s x))) (= (seqback (pushFront s x)) (seqback s))) :pattern ((pushFront s x)))))
 
 ; @axiom seq-remove-member
-; @needs seq.remove seq.member
-(assert (forall ((s GSeq) (x Int) (y Int)) (! (= (seq.member (seq.remove s x) y) (and (seq.member s y) (not (= y x)))) :pattern ((seq.member (seq.remove s x) y)))))
+; @needs seqremove member
+(assert (forall ((s GSeq) (x Int) (y Int)) (! (= (member (seqremove s x) y) (and (member s y) (not (= y x)))) :pattern ((member (seqremove s x) y)))))
 ; @axiom seq-remove-len
-; @needs seq.remove seq.len
-(assert (forall ((s GSeq) (x Int)) (! (=> (seq.member s x) (= (seq.len (seq.remove s x)) (- (seq.len s) 1))) :pattern ((seq.remove s x)))))
+; @needs seqremove seqlen
+(assert (forall ((s GSeq) (x Int)) (! (=> (member s x) (= (seqlen (seqremove s x)) (- (seqlen s) 1))) :pattern ((seqremove s x)))))
 
 ; @axiom seq-mtf-member
-; @needs seq.mtf seq.member
-(assert (forall ((s GSeq) (x Int) (y Int)) (! (= (seq.member (seq.mtf s x) y) (seq.member s y)) :pattern ((seq.member (seq.mtf s x) y)))))
+; @needs mtf member
+(assert (forall ((s GSeq) (x Int) (y Int)) (! (= (member (mtf s x) y) (member s y)) :pattern ((member (mtf s x) y)))))
 ; @axiom seq-mtf-len
-; @needs seq.mtf seq.len
-(assert (forall ((s GSeq) (x Int)) (! (= (seq.len (seq.mtf s x)) (seq.len s)) :pattern ((seq.mtf s x)))))
+; @needs mtf seqlen
+(assert (forall ((s GSeq) (x Int)) (! (= (seqlen (mtf s x)) (seqlen s)) :pattern ((mtf s x)))))
 ; @axiom seq-mtf-front
-; @needs seq.mtf seq.front
-(assert (forall ((s GSeq) (x Int)) (! (=> (seq.member s x) (= (seq.front (seq.mtf s x)) x)) :pattern ((seq.mtf s x)))))
+; @needs mtf seqfront
+(assert (forall ((s GSeq) (x Int)) (! (=> (member s x) (= (seqfront (mtf s x)) x)) :pattern ((mtf s x)))))
 
 ; eviction order: dropped(t, s) iff t is s with some elements removed from the back, one at a time
 ; @axiom seq-dropped-refl
-; @needs seq.dropped
-(assert (forall ((s GSeq)) (! (seq.dropped s s) :pattern ((seq.dropped s s)))))
+; @needs dropped
+(assert (forall ((s GSeq)) (! (dropped s s) :pattern ((dropped s s)))))
 ; @axiom seq-dropped-step
-; @needs seq.dropped seq.remove seq.back
-(assert (forall ((t GSeq) (s GSeq)) (! (=> (and (seq.dropped t s) (> (seq.len t) 0)) (seq.dropped (seq.remove t (seq.back t)) s)) :pattern ((seq.dropped (seq.remove t (seq.back t)) s)))))
+; @needs dropped seqremove seqback
+(assert (forall ((t GSeq) (s GSeq)) (! (=> (and (dropped t s) (> (seqlen t) 0)) (dropped (seqremove t (seqback t)) s)) :pattern ((dropped (seqremove t (seqback t)) s)))))
 
 ; @axiom sum-nonneg
-; @needs seq.sum4k
-(assert (forall ((s GSeq) (A (Array Int Int))) (! (>= (seq.sum4k s A) 0) :pattern ((seq.sum4k s A)))))
+; @needs sum4k
+(assert (forall ((s GSeq) (A (Array Int Int))) (! (>= (sum4k s A) 0) :pattern ((sum4k s A)))))
 ; @axiom sum-empty
-; @needs seq.sum4k seq.len
-(assert (forall ((s GSeq) (A (Array Int Int))) (! (=> (= (seq.len s) 0) (= (seq.sum4k s A) 0)) :pattern ((seq.sum4k s A)))))
+; @needs sum4k seqlen
+(assert (forall ((s GSeq) (A (Array Int Int))) (! (=> (= (seqlen s) 0) (= (sum4k s A) 0)) :pattern ((sum4k s A)))))
 ; @axiom sum-push
-; @needs seq.sum4k seq.pushFront
-(assert (forall ((s GSeq) (x Int) (A (Array Int Int))) (! (=> (not (seq.member s x))
-   (= (seq.sum4k (seq.pushFront s x) A) (+ (seq.sum4k s A) (r4kc (select A (sub.github.com.buchgr.bazel_remote.v2.cache.disk.entry.value x))))))
-   :pattern ((seq.sum4k (seq.pushFront s x) A)))))
+; @needs sum4k pushFront
+(assert (forall ((s GSeq) (x Int) (A (Array Int Int))) (! (=> (not (member s x))
+   (= (sum4k (pushFront s x) A) (+ (sum4k s A) (r4kc (select A (sub.cache.disk.entry.value x))))))
+   :pattern ((sum4k (pushFront s x) A)))))
 ; @axiom sum-remove
-; @needs seq.sum4k seq.remove
-(assert (forall ((s GSeq) (x Int) (A (Array Int Int))) (! (=> (seq.member s x)
-   (= (seq.sum4k (seq.remove s x) A) (- (seq.sum4k s A) (r4kc (select A (sub.github.com.buchgr.bazel_remote.v2.cache.disk.entry.value x))))))
-   :pattern ((seq.sum4k (seq.remove s x) A)))))
+; @needs sum4k seqremove
+(assert (forall ((s GSeq) (x Int) (A (Array Int Int))) (! (=> (member s x)
+   (= (sum4k (seqremove s x) A) (- (sum4k s A) (r4kc (select A (sub.cache.disk.entry.value x))))))
+   :pattern ((sum4k (seqremove s x) A)))))
 ; @axiom sum-mtf
-; @needs seq.sum4k seq.mtf
-(assert (forall ((s GSeq) (x Int) (A (Array Int Int))) (! (= (seq.sum4k (seq.mtf s x) A) (seq.sum4k s A)) :pattern ((seq.sum4k (seq.mtf s x) A)))))
+; @needs sum4k mtf
+(assert (forall ((s GSeq) (x Int) (A (Array Int Int))) (! (= (sum4k (mtf s x) A) (sum4k s A)) :pattern ((sum4k (mtf s x) A)))))
 ; @axiom sum-store
-; @needs seq.sum4k
+; @needs sum4k
 (assert (forall ((s GSeq) (A (Array Int Int)) (y Int) (v Int)) (!
-   (= (seq.sum4k s (store A y v))
-      (+ (seq.sum4k s A)
-         (ite (and (seq.member s (subinv.github.com.buchgr.bazel_remote.v2.cache.disk.entry.value y))
-                   (= (sub.github.com.buchgr.bazel_remote.v2.cache.disk.entry.value (subinv.github.com.buchgr.bazel_remote.v2.cache.disk.entry.value y)) y))
+   (= (sum4k s (store A y v))
+      (+ (sum4k s A)
+         (ite (and (member s (subinv.cache.disk.entry.value y))
+                   (= (sub.cache.disk.entry.value (subinv.cache.disk.entry.value y)) y))
               (- (r4kc v) (r4kc (select A y)))
               0)))
-   :pattern ((seq.sum4k s (store A y v))))))
+   :pattern ((sum4k s (store A y v))))))
 ; @axiom item-inj
-; @needs sub.github.com.buchgr.bazel_remote.v2.cache.disk.entry.value
-(assert (forall ((x Int)) (! (= (subinv.github.com.buchgr.bazel_remote.v2.cache.disk.entry.value (sub.github.com.buchgr.bazel_remote.v2.cache.disk.entry.value x)) x)
-   :pattern ((sub.github.com.buchgr.bazel_remote.v2.cache.disk.entry.value x)))))
+; @needs sub.cache.disk.entry.value
+(assert (forall ((x Int)) (! (= (subinv.cache.disk.entry.value (sub.cache.disk.entry.value x)) x)
+   :pattern ((sub.cache.disk.entry.value x)))))
